@@ -43,6 +43,42 @@ def run(ctx):
             wit = h.uncrossed_path([syncs[0].block], io, edges=contE)
             r1.check(bool(contE) and wit is None, "sync-ok-before-io", "client traffic follows only a successful sync", "client traffic can follow a failed sync_parameters")
     # ---------------- R2
+    # "successful" means the server took the values: Server::query returns Ok whatever the server answered, and the SETs are one
+    # multi-statement query (one implicit transaction: a refused value rolls the others back, the connection keeps the previous client's)
+    scb = ctx.body(SYNCC, r1)
+    rvb = F.body("pgcat::server::Server::recv::{closure#0}")
+    if scb and rvb:
+        rsw_ = switches(rvb)
+        code_sw_ = [sw for sw in rsw_ if sw.ty in ("char", "u8", "u32") and {v for v, _ in sw.targets} >= {90, 69, 67}]
+        flags = set()
+        if code_sw_:
+            earm = dict(code_sw_[0].targets)[69]
+            for blk, i, st in rvb.assigns():
+                if rvb.dominates(earm, blk) and st["rv"]["k"] == "use" and const_int(st["rv"].get("op")) == 1:
+                    f = proj_fields(st["lhs"])[-1:]
+                    if f and f[0] not in ("bad", "data_available", "in_copy_mode", "in_transaction"):
+                        flags.add(f[0])
+        qc = scb.calls("pgcat::server::Server::query")
+        oks = [blk for blk, i, st in scb.assigns() if st["lhs"]["l"] == 0 and not st["lhs"]["p"] and (st["rv"]["k"] == "agg" and st["rv"].get("variant") == "Ok" or st["rv"]["k"] == "use")]
+        ssw_ = switches(scb)
+        okE = set()
+        for f in flags:
+            t_, f_ = field_bool_edges(scb, f, ssw_)
+            okE |= {e for e in f_ if any(e[0] in scb.reach([q.target]) for q in qc if q.target is not None)}
+        marks_ = [c.block for c in scb.calls("pgcat::server::Server::mark_bad")]
+        # the query itself failed (I/O): its Err is what is returned
+        _t, isok_f, _ = call_bool_edges(scb, "core::result::Result::is_ok", switches_cache=ssw_)
+        iserr_t, _f, _ = call_bool_edges(scb, "core::result::Result::is_err", switches_cache=ssw_)
+        errE_, _o, _ = discr_edges(scb, r"core::result::Result<\(\), pgcat::errors::Error>", "Err", switches_cache=ssw_)
+        okE |= set(isok_f) | set(iserr_t) | set(errE_)
+        if qc:
+            rets_ = [bb for bb, blk in enumerate(scb.blocks) if blk["term"]["k"] == "return"]
+            # returns reached after the query without having seen "no ErrorResponse" and without giving the connection up
+            w_ = scb.uncrossed_path([q.target for q in qc if q.target is not None], rets_, edges=okE, blocks=marks_)
+            r1.check(bool(flags) and bool(okE) and w_ is None, "sync-result-verified", "sync_parameters returns after its query only where the server sent no ErrorResponse (Server.%s), or gives the connection up" % sorted(flags),
+                     "sync_parameters reports success whatever the server answered: a tracked parameter value the server refuses (a client that announced DateStyle=bogus) rolls the whole multi-statement SET back, "
+                     "and the client's statements run under the previous client's application_name / TimeZone / ...", qc[0].where(), w_ and scb.describe_path(w_))
+
     r2 = ctx.rule("C12-R2", "in sync_parameters a parameter value is not interpolated raw into a quoted SQL literal", floor=2)
     sc = ctx.body(SYNCC, r2)
     if sc:
